@@ -9,7 +9,7 @@ BASE = dict(
     BadEvents="FALSE", FoUuid="<- Fo10", Savers='{"p"}', MaxSaves="2", MaxCrash="1", MaxAcks="2", MaxGen="2",
     MaxNotify="0", MaxEnds="0", MaxFail="0", AutoReset='"earliest"', Finite="FALSE", AutoCkpt="FALSE",
     Infos="<- NoInfos", Info0="<- Info11", EndCauses="{}", Hold="FALSE", AllowClose="FALSE", Rollbacks="FALSE",
-    FailSaves="TRUE", Focus="TRUE", Record="FALSE", ReadOnly="FALSE", RM="FALSE", Slots="1", RmUuids="{1, 2}", Scrapes="FALSE", HookScrapes="FALSE", Marking="FALSE", WindAt="0", Gaps="{}", Bugs="{}")
+    FailSaves="TRUE", Focus="TRUE", Record="FALSE", ReadOnly="FALSE", RM="FALSE", Slots="1", RmUuids="{1, 2}", RmMonotone="FALSE", Scrapes="FALSE", HookScrapes="FALSE", Marking="FALSE", WindAt="0", Gaps="{}", Bugs="{}")
 DATA = dict(BASE)
 GEN = dict(BASE, NVB="1", InitLog="<- EmptyLog", Kinds='{"mut", "del", "exp", "sys", "adv"}', Keys='{"user", "conn", "txn"}',
            OldEvents="TRUE", BadEvents="TRUE", MaxSaves="1", Rollbacks="TRUE", FailSaves="FALSE")
@@ -89,6 +89,11 @@ CFGS = {
                   BadEvents="FALSE", Rollbacks="FALSE", MaxCrash="0", MaxSaves="1", MaxAcks="2", AllowClose="TRUE", Focus="TRUE"),
     "SimRm2": simc(GEN, 44, RM="TRUE", Slots="2", RmUuids="{1}", MaxSeq="3", Kinds='{"mut", "del", "sys", "adv"}', Keys='{"user"}', OldEvents="FALSE",
                    BadEvents="FALSE", Rollbacks="FALSE", MaxCrash="0", MaxSaves="1", MaxAcks="2", AllowClose="TRUE", Focus="TRUE"),
+    "SimRmM": simc(GEN, 50, RM="TRUE", RmMonotone="TRUE", Slots="3", MaxSeq="3", NVB="2", Kinds='{"mut", "sys", "adv"}', Keys='{"user"}', OldEvents="FALSE",
+                   BadEvents="FALSE", Rollbacks="FALSE", MaxCrash="0", MaxSaves="1", MaxAcks="2", AllowClose="TRUE", Focus="TRUE"),
+    "SimRm2M": simc(GEN, 44, RM="TRUE", RmMonotone="TRUE", Slots="2", RmUuids="{1}", MaxSeq="3", Kinds='{"mut", "del", "sys", "adv"}', Keys='{"user"}', OldEvents="FALSE",
+                    BadEvents="FALSE", Rollbacks="FALSE", MaxCrash="0", MaxSaves="1", MaxAcks="2", AllowClose="TRUE", Focus="TRUE"),
+    "WitReplayRmM": rep(GEN, RM="TRUE", RmMonotone="TRUE", Slots="2", MaxSeq="4", MaxSaves="10", MaxAcks="10", MaxCrash="0", MaxGen="4", AllowClose="TRUE", Rollbacks="FALSE"),
     "WitRm": wit(GEN, RM="TRUE", Slots="2", MaxSeq="2", Kinds='{"mut", "adv"}', Keys='{"user"}', OldEvents="FALSE", BadEvents="FALSE",
                  Rollbacks="FALSE", MaxCrash="0", MaxSaves="1", MaxAcks="0", AllowClose="TRUE", Focus="TRUE"),
     "WitReplayRm": rep(GEN, RM="TRUE", Slots="2", MaxSeq="4", MaxSaves="10", MaxAcks="10", MaxCrash="0", MaxGen="4", AllowClose="TRUE", Rollbacks="FALSE"),
